@@ -138,7 +138,7 @@ func shapes(thorough bool) []*vals.Spec {
 			if i < len(special) {
 				ikeys[i] = special[i]
 			} else {
-				ikeys[i] = int32(i * 101)
+				ikeys[i] = int32(i*101 + 1) // never one of the special keys above (203*101 = 20503 is one)
 			}
 		}
 		out = append(out, &vals.Spec{T: vals.TList, Items: items}, &vals.Spec{T: vals.TMap, Keys: keys, Items: items}, &vals.Spec{T: vals.TIMap, IKeys: ikeys, Items: items})
